@@ -14,7 +14,7 @@ func checkC17(c *Ctx) {
 	r.NotDecided = append(r.NotDecided, "value correctness of net.CIDRMask etc. beyond guards; string trimming semantics")
 	e2CheckLayouts(c, "C17-K4", isV4Value, 30)
 	c17Accessors(c)
-	containerRules(c, "C17-K10")
+	containerRules(c, "C17-K10", "4")
 	c17Ctors(c)
 	// set-then-get of the domain search list depends on the label set's re-emission rule (shared with C19-K1)
 	c19Rule = "C17-K1"
